@@ -6,18 +6,25 @@
 set -u
 HERE="$(cd "$(dirname "${BASH_SOURCE[0]}")" && pwd)"
 export CARGO_NET_OFFLINE=true
-export SFV_VERIF_DIR="$HERE"
+# optional: run against another copy of the repository (self-test, seeded changes) without touching
+# /repo: SFV_REPO=<dir> [SFV_TARGET=<cargo target dir>] [SFV_OUT=<dir for evidence/ and replays/>]
+REPO="${SFV_REPO:-/repo}"
+TARGET="${SFV_TARGET:-$HERE/harness/target}"
+export SFV_VERIF_DIR="${SFV_OUT:-$HERE}"
+export SFV_KNOWN="$HERE/known_findings.txt"
+EXTRA=()
+if [ "$REPO" != /repo ]; then EXTRA=(--config "paths=[\"$REPO\"]"); fi
 ORIG_PWD="$PWD"
 cd "$HERE/harness" || exit 3
-mkdir -p "$HERE/evidence" "$HERE/replays"
+mkdir -p "$SFV_VERIF_DIR/evidence" "$SFV_VERIF_DIR/replays"
 build() {
-  local log="$HERE/harness/target/build.$1.log"
-  mkdir -p "$HERE/harness/target"
+  local log="$TARGET/build.$1.log"
+  mkdir -p "$TARGET"
   # serialise concurrent builds of the same target dir
   (
     flock 9
-    if [ "$1" = dev ]; then cargo build --offline -q >"$log" 2>&1; else cargo build --offline --release -q >"$log" 2>&1; fi
-  ) 9>"$HERE/harness/target/.build.$1.lock"
+    if [ "$1" = dev ]; then cargo build --offline -q --target-dir "$TARGET" "${EXTRA[@]}" >"$log" 2>&1; else cargo build --offline --release -q --target-dir "$TARGET" "${EXTRA[@]}" >"$log" 2>&1; fi
+  ) 9>"$TARGET/.build.$1.lock"
   local rc=$?
   if [ $rc -ne 0 ]; then
     echo "BUILD-FAILED profile=$1 (harness does not build against /repo's current tree; inconclusive)"
@@ -27,8 +34,8 @@ build() {
 }
 build dev
 build release
-export SFV_DEV_BIN="$HERE/harness/target/debug/sfv"
-export SFV_REL_BIN="$HERE/harness/target/release/sfv"
+export SFV_DEV_BIN="$TARGET/debug/sfv"
+export SFV_REL_BIN="$TARGET/release/sfv"
 if [ "${1:-}" = build ]; then exit 0; fi
 if [ "${1:-}" = replay ] && [ -n "${2:-}" ]; then
   case "$2" in /*) f="$2" ;; *) f="$ORIG_PWD/$2" ;; esac
